@@ -15,10 +15,14 @@ impl<'a> LuaGen<'a> {
     pub fn new(r: &'a mut Rng) -> Self {
         let pool: &[&'static str] = &["a", "b", "c", "x", "y", "i"];
         let k = r.range(3, 6);
+        let mut names = pool[..k].to_vec();
+        if r.chance(1, 6) {
+            names.push("table");
+        }
         LuaGen {
             r,
-            names: pool[..k].to_vec(),
-            globals: vec!["print", "math", "string", "g1", "g2"],
+            names,
+            globals: vec!["print", "math", "string", "table", "g1", "g2"],
             depth_limit: 4,
             in_function: 0,
             in_vararg_fn: vec![true], // main chunk is vararg
@@ -158,9 +162,9 @@ impl<'a> LuaGen<'a> {
     pub fn stmt(&mut self, depth: usize) -> String {
         let deep = depth >= self.depth_limit;
         let w: &[usize] = if deep {
-            &[5, 4, 3, 0, 0, 0, 0, 0, 0, 0, 0, 2]
+            &[5, 4, 3, 0, 0, 0, 0, 0, 0, 0, 0, 2, 3, 0]
         } else {
-            &[6, 4, 3, 2, 2, 3, 2, 2, 2, 2, 2, 2]
+            &[6, 4, 3, 2, 2, 3, 2, 2, 2, 2, 2, 2, 4, 1]
         };
         match self.r.weighted(w) {
             0 => {
@@ -290,6 +294,74 @@ impl<'a> LuaGen<'a> {
                 self.in_vararg_fn.pop();
                 format!("function {}({})\n{}end\n", name, params, b)
             }
+            12 => {
+                // static tables, writes into them and library call statements with bare-identifier arguments
+                match self.r.below(8) {
+                    0 | 1 => {
+                        self.note("static-table-local");
+                        let v = self.name();
+                        let init = *self.r.pick(&["{}", "{}", "{ 1 }", "{ f = 1 }", "({})", "{ {} }"]);
+                        format!("local {} = {}\n", v, init)
+                    }
+                    2 | 3 => {
+                        self.note("static-table-write");
+                        let v = self.name();
+                        let e = self.expr(2);
+                        match self.r.below(7) {
+                            0 => format!("{}.f = {}\n", v, e),
+                            1 => format!("{}[1] = {}\n", v, e),
+                            2 => format!("{}[\"k\"] = {}\n", v, e),
+                            3 => format!("{}.f.g = {}\n", v, e),
+                            4 => format!("{}[{}] = {}\n", v, self.name(), e),
+                            5 => format!("{}[(nil)] = {}\n", v, e),
+                            _ => format!("{}.f, {}.g = {}\n", v, self.name(), e),
+                        }
+                    }
+                    _ => {
+                        self.note("library-call-stmt");
+                        let f = *self.r.pick(&["table.insert", "table.insert", "table.sort", "table.remove", "print", "rawset", "table.foo", "math.floor", "string.rep", "table.concat", "g1"]);
+                        let k = self.r.range(1, 3);
+                        let args: Vec<String> = (0..k)
+                            .map(|_| match self.r.below(6) {
+                                0 => format!("{}.f", self.name()),
+                                1 => self.expr(2),
+                                2 => "1".to_string(),
+                                _ => self.name().to_string(),
+                            })
+                            .collect();
+                        if self.r.chance(1, 8) {
+                            format!("{}:{}({})\n", self.name(), self.r.pick(&["insert", "m"]), args.join(", "))
+                        } else {
+                            format!("{}({})\n", f, args.join(", "))
+                        }
+                    }
+                }
+            }
+            13 => {
+                // arms that consist of a `return` only (a block without statements still has a range)
+                self.note("return-only-arm");
+                let ret = |g: &mut Self| -> String {
+                    match g.r.below(4) {
+                        0 => "return\n".to_string(),
+                        1 => format!("return {}\n", g.expr(2)),
+                        _ => format!("return {}\n", g.function_expr(depth + 1)),
+                    }
+                };
+                let c = self.expr(1);
+                let then_block = if self.r.chance(1, 3) { ret(self) } else { self.block(depth + 1, 1) };
+                let mut s = format!("if {} then\n{}", c, then_block);
+                if self.r.chance(1, 3) {
+                    let c2 = self.expr(1);
+                    let b = if self.r.chance(1, 2) { ret(self) } else { self.block(depth + 1, 0) };
+                    s.push_str(&format!("elseif {} then\n{}", c2, b));
+                }
+                if self.r.chance(3, 4) {
+                    let r = ret(self);
+                    s.push_str(&format!("else\n{}", r));
+                }
+                s.push_str("end\n");
+                s
+            }
             _ => {
                 // the K1 / K2 / K3 shapes, explicitly
                 match self.r.below(4) {
@@ -332,4 +404,70 @@ pub fn gen_program(r: &mut Rng) -> (String, std::collections::BTreeMap<&'static 
     let mut g = LuaGen::new(r);
     let src = g.program();
     (src, g.shapes)
+}
+
+/// Programs aimed at unused_variable's analysis: one or two locals (static tables or not) and a few
+/// statements that write into them, pass them to library / script functions or read them.
+pub fn gen_unused_program(r: &mut Rng) -> (String, std::collections::BTreeMap<&'static str, usize>) {
+    let mut shapes = std::collections::BTreeMap::new();
+    shapes.insert("unused-focus", 1usize);
+    let names = ["t", "u", "entry"];
+    let mut body = String::new();
+    let shadow = r.below(6);
+    if shadow == 0 {
+        body.push_str("local table = { insert = print }\n");
+    }
+    let nv = r.range(1, 2);
+    for v in names.iter().take(nv) {
+        let init = *r.pick(&["{}", "{}", "{ 1 }", "{ name = x }", "1", "f()", "({})", "nil"]);
+        body.push_str(&format!("local {} = {}\n", v, init));
+    }
+    for _ in 0..r.range(1, 4) {
+        let v = names[r.below(nv)];
+        let w = names[r.below(nv)];
+        let line = match r.below(22) {
+            0 => format!("{v}.f = 1"),
+            1 => format!("{v}[1] = x"),
+            2 => format!("{v}[\"k\"] = {w}"),
+            3 => format!("{v}.f.g = 1"),
+            4 => format!("{v}[x] = 1"),
+            5 => format!("table.insert({v}, 1)"),
+            6 => format!("table.insert({v}, {w})"),
+            7 => format!("table.insert(registry.entries, {v})"),
+            8 => format!("table.insert(g(), {v})"),
+            9 => format!("table.insert(1, {v}, {w})"),
+            10 => format!("print({v})"),
+            11 => format!("table.sort({v})"),
+            12 => format!("{v}:insert(1)"),
+            13 => format!("rawset({v}, \"k\", 1)"),
+            14 => format!("g1({v})"),
+            15 => format!("local keep = table.insert({v}, 1)"),
+            16 => format!("table.insert({{}}, {v})"),
+            17 => format!("table.insert({v})"),
+            18 => format!("table.foo({v})"),
+            19 => format!("table.insert(x, \"s\", {v})"),
+            20 => format!("{v} = {w}"),
+            _ => format!("string.rep({v}, 2)"),
+        };
+        body.push_str(&line);
+        body.push('\n');
+    }
+    if r.chance(1, 5) {
+        body.push_str(&format!("return {}\n", names[r.below(nv)]));
+    }
+    let src = match r.below(5) {
+        0 => {
+            // the same spelled call with the library's `table` first and a parameter `table` afterwards (or the other way round)
+            let std_call = "local q0 = {}\ntable.insert(q0, 1)\n";
+            match r.below(3) {
+                0 => format!("{std_call}local function wrap(table)\n{body}end\nwrap()\n"),
+                1 => format!("local function wrap(table)\n{body}end\nwrap()\n{std_call}"),
+                _ => format!("local function wrap(table)\n{body}end\nwrap()\n"),
+            }
+        }
+        1 => format!("local function wrap(x)\n{body}end\nwrap()\n"),
+        2 => format!("do\n{body}end\n"),
+        _ => body,
+    };
+    (src, shapes)
 }
